@@ -52,6 +52,7 @@ def _gen(a):
     # process environment of the run (seeded; part of the case): a quarter of the runs have logging enabled at DEBUG, an eighth at WARNING
     e = core.derive(run_seed, "env") % 8
     case.setdefault("env", {"logging": "debug" if e in (0, 1) else ("warning" if e == 2 else "off")})
+    case["env"]["optimize"] = int(sys.flags.optimize)  # interpreter flag the run was made under (-O pass, see main)
     return case
 
 
@@ -412,11 +413,26 @@ def evidence_doc(chk, tier, seed, agg, wall, reported, truncated, planned, worke
     }
 
 
+def _reexec_optimized(argv, extra_env=None):
+    """run this driver again under python -O (asserts stripped) and return (exit code, stdout)"""
+    import subprocess
+
+    env = dict(os.environ, **(extra_env or {}))
+    boot = 'import sys; sys.path.insert(0, "."); from dsim import driver; sys.exit(driver.main(sys.argv[1:]))'
+    p = subprocess.run([sys.executable, "-O", "-c", boot] + argv, cwd=VERIF_DIR, env=env, capture_output=True, text=True)
+    return p.returncode, p.stdout
+
+
 def replay(pid, path):
-    core.use_repo()
-    chk = load_check(pid)
     with open(path) as f:
         case = json.load(f)
+    want_opt = int((case.get("env") or {}).get("optimize", 0))
+    if want_opt and not sys.flags.optimize:
+        rc, out = _reexec_optimized([pid, "--replay", path])  # the case was found under python -O: replay it there
+        print(out, end="")
+        return rc
+    core.use_repo()
+    chk = load_check(pid)
     # same import state as the arm's group had (groups are cumulative)
     groups = chk.arm_groups("quick")
     upto = next((gi for gi, g in enumerate(groups) if g is not None and case.get("arm") in g), len(groups) - 1)
@@ -441,6 +457,42 @@ def replay(pid, path):
     return 0
 
 
+def _optimized_pass(a, rc):
+    """a reduced pass of the same check under python -O (the library validates input with assert statements, which -O strips):
+    the property must hold there too.  Its violations are reported like any other; its counts go into the evidence file."""
+    import tempfile
+
+    scale = float(os.environ.get("VERIF_SCALE", "1")) * (0.12 if a.tier == "quick" else 0.05)
+    evdir = tempfile.mkdtemp(prefix="evopt-", dir="/tmp")
+    try:
+        argv = [a.pid, "--tier", a.tier, "--seed", str(a.seed + 1000003)] + (["--workers", str(a.workers)] if a.workers else [])
+        orc, out = _reexec_optimized(argv, {"VERIF_SCALE": repr(scale), "VERIF_EVIDENCE_DIR": evdir, "VERIF_OPT_PASS": "0"})
+        shown = [l for l in out.splitlines() if l.startswith(("VIOLATION", "  oracle=", "  detail", "HARNESS-ERROR"))]
+        for l in shown:
+            print(l)
+        last = [l for l in out.splitlines() if " exit=" in l]
+        print("  [python -O pass] " + (last[-1] if last else f"exit={orc}"))
+        try:
+            sub = json.load(open(os.path.join(evdir, a.pid + ".json")))
+            evp = os.path.join(os.environ.get("VERIF_EVIDENCE_DIR") or os.path.join(VERIF_DIR, "evidence"), a.pid + ".json")
+            ev = json.load(open(evp))
+            ev["coverage"]["optimized_interpreter_pass"] = {"flag": "-O", "seed": a.seed + 1000003, "runs": sub["coverage"]["runs"],
+                                                            "evaluations": sub["coverage"]["evaluations"], "violations": sub.get("violations", 0), "exit": orc}
+            ev["violations"] = ev.get("violations", 0) + sub.get("violations", 0)
+            json.dump(ev, open(evp, "w"), indent=1, sort_keys=True)
+        except Exception as e:
+            print(f"  [python -O pass] evidence not merged: {e}")
+        if orc == 1:
+            return 1
+        if orc != 0 and rc == 0:
+            return 2
+        return rc
+    finally:
+        import shutil
+
+        shutil.rmtree(evdir, ignore_errors=True)
+
+
 def main(argv):
     import argparse
 
@@ -457,7 +509,10 @@ def main(argv):
     try:
         if a.replay:
             return replay(a.pid, a.replay)
-        return run_check(a.pid, a.tier, a.seed, a.budget, a.workers, a.digests, not a.no_stop_early)
+        rc = run_check(a.pid, a.tier, a.seed, a.budget, a.workers, a.digests, not a.no_stop_early)
+        if not sys.flags.optimize and os.environ.get("VERIF_OPT_PASS", "1") == "1" and not a.digests:
+            rc = _optimized_pass(a, rc)
+        return rc
     except SystemExit:
         raise
     except BaseException as e:
